@@ -103,17 +103,18 @@ def describe(states):
     return '%s ; then %s' % (json.dumps(states[0], sort_keys=True), ', '.join(d))
 
 
-MODES = [('queries after every change', lambda n: [True] * (n + 1), False),
-         ('no query before the last change', lambda n: [False] * n + [True], False),
-         ('queries only at the start and at the end, layout re-sent with every change', lambda n: [True] + [False] * (n - 1) + [True] if n else [True], True)]
+MODES = [('queries after every change', lambda n: [True] * (n + 1), False, False),
+         ('no query before the last change', lambda n: [False] * n + [True], False, False),
+         ('queries only at the start and at the end, layout re-sent with every change', lambda n: [True] + [False] * (n - 1) + [True] if n else [True], True, False),
+         ('queries after every change, every changed text queued twice in its Change (an intermediate text first)', lambda n: [True] * (n + 1), False, True)]
 
 
 def run_history(oracle, states):
     """-> (problems, answers compared)"""
     problems = []; answers = 0
     wss = [render(s) for s in states]
-    for label, chk, always in MODES:
-        r = oracle.ask('history', json.dumps({'states': wss, 'check': chk(len(states) - 1), 'always_structure': always}))
+    for label, chk, always, double in MODES:
+        r = oracle.ask('history', json.dumps({'states': wss, 'check': chk(len(states) - 1), 'always_structure': always, 'double_writes': double}))
         if not isinstance(r, dict) or 'diffs' not in r:
             problems.append('history %s (%s): the oracle answers %s' % (describe(states), label, str(r)[:300]))
             continue
